@@ -45,12 +45,12 @@ theorem disconnect_invalidates_pool (c : Conn) (k : FKind) (hd : c.hasDbapi = tr
   omega
 
 /-- **stale_never_handed_out**: after a disconnect was detected (pool invalidation not
-    suppressed), through EVERY later history of API calls, close, garbage collection and
-    new checkouts, the Connection never again holds a DBAPI connection that existed when
+    suppressed), through EVERY later history of API calls, close, garbage collection,
+    new checkouts and extra pooled connections, the Connection never again holds a DBAPI connection that existed when
     the failure happened (their numbers are all below `nextRid` at the failure). -/
 theorem stale_never_handed_out (c : Conn) (k : FKind) (hd : c.hasDbapi = true)
     (hk : IsDisc c k) (hl : c.db.listener ≠ .noPoolInval) (ht : PoolTime c.db true)
-    (ops : List Op) (ho : ∀ op ∈ ops, op.tracked = true) :
+    (ops : List Op) :
     let c' := (c.dbapiError k).1.run ops
     c'.hasDbapi = true → c.db.nextRid ≤ c'.db.raw.rid := by
   intro c' hh
@@ -68,19 +68,18 @@ theorem stale_never_handed_out (c : Conn) (k : FKind) (hd : c.hasDbapi = true)
     · rw [dbapiError_disc c k hk, discError_spec c hd]
       intro e; cases e
   -- … and is preserved by every later step
-  exact (run_gen ops _ h0 ho).2.held hh
+  exact (run_gen ops _ h0 (fun _ _ => rfl)).2.held hh
 
 
 /-- the clock discipline assumed above holds in every reachable state -/
-theorem pooltime_reachable (rs : ResetStyle) (ls : Listener) (ops : List Op)
-    (ho : ∀ op ∈ ops, op.tracked = true) :
+theorem pooltime_reachable (rs : ResetStyle) (ls : Listener) (ops : List Op) :
     let c := (Conn.connect (DB.init rs ls)).run ops
     PoolTime c.db c.hasDbapi := by
   have h0 : GenC 0 (Conn.connect (DB.init rs ls)) := by
     refine connect_gen ⟨⟨?_, Nat.le_refl _, fun e => (by cases e)⟩, ⟨Nat.zero_le _, ?_, fun e => (by cases e)⟩⟩
     · intro r hr; simp [DB.init] at hr
     · intro r hr; simp [DB.init] at hr
-  exact (run_gen ops _ h0 ho).1
+  exact (run_gen ops _ h0 (fun _ _ => rfl)).1
 
 /-! ## further use raises until rollback() -/
 
